@@ -53,10 +53,10 @@ func c19Scripts() [][]c19Res {
 }
 
 type c19Case struct {
-	Chain  []string
-	Script []c19Res
-	NCalls int
-	Corr   string
+	Chain       []string
+	Script      []c19Res
+	NCalls      int
+	Corr        string
 	DInit, DMax time.Duration
 	DNum, DDen  int
 }
